@@ -847,6 +847,11 @@ func (vfs *MemFS) Rename(oldpath, newpath string) error {
 		return nil
 	}
 
+	if nChild != nil && nChild == oChild {
+		// Both names are hard links to the same file: rename(2) does nothing.
+		return nil
+	}
+
 	switch oChild.(type) {
 	case *dirNode:
 		if !vfs.isNotExist(nErr) {
